@@ -30,7 +30,9 @@ def sizeHint (m : Mode) (it : Rows) : Res Nat :=
   if it.cols = 0 then pure 0
   else do
     let denom ← uadd m it.cols it.skip
-    pure (it.v.len / denom + (it.v.len % denom) / it.cols)
+    let q ← udiv it.v.len denom
+    let r ← urem it.v.len denom
+    pure (q + r / it.cols)
 
 /-- `nth` src/iter.rs:60-70, 171-181 -/
 def nth (m : Mode) (it : Rows) (n : Nat) : Res (Option Win × Rows) := do
@@ -138,7 +140,9 @@ def next (it : Col) : Res (Option Nat × Col) :=
 /-- `size_hint` src/iter.rs:281-286, 412-417 (`len()`/`count()` return the same number) -/
 def sizeHint (m : Mode) (it : Col) : Res Nat := do
   let denom ← uadd m 1 it.skip
-  pure (it.v.len / denom + it.v.len % denom)
+  let q ← udiv it.v.len denom
+  let r ← urem it.v.len denom
+  pure (q + r)
 
 /-- `nth` src/iter.rs:294-304, 425-435 -/
 def nth (m : Mode) (it : Col) (n : Nat) : Res (Option Nat × Col) := do
@@ -222,10 +226,11 @@ def VW.col (m : Mode) (v : VW) (c : Nat) : Res Col := do
 
 /-- `From<TooDeeView<T>> for TooDee<T>` src/toodee.rs (and the identical `From<TooDeeViewMut<T>>`):
     `Vec::with_capacity(num_cols * num_rows)`, then `extend_from_slice` row by row. -/
-def VW.toOwned {α : Type} (m : Mode) (v : VW) (buf : List α) : Res (TD α) := do
+def VW.toOwned {α : Type} (m : Mode) (capLimit : Nat) (v : VW) (buf : List α) : Res (TD α) := do
   let numCols := v.numCols
   let numRows := v.numRows
-  let _cap ← umul m numCols numRows
+  let n ← umul m numCols numRows
+  if !allocOk capLimit n then throw .panic
   let rows ← v.rows m
   let ws ← rows.collect (rows.v.len + 2)
   pure ⟨(ws.map fun w => (buf.drop w.off).take w.len).flatten, numRows, numCols⟩
